@@ -38,12 +38,12 @@ pub fn new_box(area: &str) -> Option<Box<dyn VerifBox>> {
 /// Names of all adapters.
 pub fn areas() -> Vec<&'static str> {
     vec![
+        "c04",
         "c14",
         "c17",
         "c18",
         "c19",
     ]
-    vec!["c04", "c17"]
 }
 
 /// Decode a hex string.
